@@ -129,3 +129,43 @@ def corpus_programs(pid):
             if fn.endswith(".json"):
                 out.append(fix_prog(json.load(open(os.path.join(d, fn)))["program"]))
     return out
+
+
+# ------------------------------------------------------------------ first-order programs
+
+def gen_fol_program(seed, k, quant=False, crossed_p=0.0, n_ops=(2, 10), **opts):
+    import fol
+    rng = random.Random(sub_seed(seed, "fol", k, quant))
+    kb = fol.gen_fol_kb(rng, quant=quant, **opts)
+    facts, nc = fol.gen_facts(rng, kb, crossed_p=crossed_p)
+    ops = fol.gen_fol_ops(rng, kb, n_ops=n_ops)
+    return {"kb": kb, "facts": facts, "ops": ops, "n_consts": nc}
+
+
+def run_fol_stream(report, name, progs, facets, jobs=None, fn="run_fol_program"):
+    recs = engine.run_cases("fol", fn, progs, jobs=jobs, chunksize=2)
+    for r, p in zip(recs, progs):
+        r["prog"] = p
+    engine.model_outputs([r for r in recs if "lines" in r])
+    n_dis = compared = skipped = 0
+    first = None
+    for r in recs:
+        if "crash" in r:
+            continue
+        dis, safe, ncmp = engine.compare_record(r, facets)
+        r["disagreements"], r["safe_upto"] = dis, safe
+        compared += ncmp
+        skipped += safe < len(r["lines"])
+        if dis:
+            n_dis += 1
+            first = first or r
+    report.bump(f"{name}_programs", len(recs))
+    report.bump(f"{name}_lines_compared", compared)
+    report.bump(f"{name}_precision_skipped", skipped)
+    crashes = [r for r in recs if "crash" in r]
+    report.bump(f"{name}_harness_crashes", len(crashes))
+    if crashes:
+        report.extra.setdefault(f"{name}_first_crash", crashes[0]["crash"] + crashes[0].get("trace", "")[-500:])
+    report.obligation(f"correspondence:{name}", n_dis == 0,
+                      f"{len(recs)} programs, {compared} lines compared, {n_dis} programs disagree")
+    return recs, first
